@@ -16,19 +16,28 @@ def main():
         import queries
         from pest import Unsupported
         repo = os.environ.get("BLV_REPO", "/repo")
+        cons = None
+        if shard == 0:
+            # constructed statements against property-level expectations: needs no encoder, so it also runs when the
+            # encoder cannot follow the source
+            import validate
+            cons = validate.constructed()
+            out["validation"] = {"compared": cons["compared"], "skipped": 0, "diffs": [], "linecol": [],
+                                 "panics": [[d[0], d[1], d[2]] for d in cons["panics"][:5]],
+                                 "sweep": [[d[0], d[1], d[2]] for d in cons["sweep"][:5]],
+                                 "refsweep": [[d[0], d[1], d[2]] for d in cons["refsweep"][:5]]}
         try:
             src = model.Sources(repo)
         except Unsupported as e:
             out["error"] = "encoder cannot follow the source: %s" % e
-            print(json.dumps(out))
+            print(json.dumps(out, default=str))
             return
         if shard == 0:
-            import validate
             n, skipped, diffs = validate.run(repo)
-            out["validation"] = {"compared": n, "skipped": skipped,
-                                 "diffs": [[d[0], d[1], str(d[2])[:300]] for d in diffs[:5]],
-                                 "linecol": [[d[0], d[1], d[2]] for d in getattr(validate.run, "linecol", [])[:5]],
-                                 "panics": [[d[0], d[1], d[2]] for d in getattr(validate.run, "panics", [])[:5]]}
+            out["validation"].update({"compared": n + cons["compared"], "skipped": skipped,
+                                      "diffs": [[d[0], d[1], str(d[2])[:300]] for d in diffs[:5]],
+                                      "linecol": [[d[0], d[1], d[2]] for d in getattr(validate.run, "linecol", [])[:5]],
+                                      "panics": out["validation"]["panics"] + [[d[0], d[1], d[2]] for d in getattr(validate.run, "panics", [])[:5]]})
         if fn != "validation_only":
             queries.set_shard(shard, nshards)
             queries.SEED = int(os.environ.get("VERIF_SEED", "0") or 0)
